@@ -111,6 +111,12 @@ def run_shallow(prog, E=None, rule="R-SHALLOW"):
             # must-follow: each owning field written through the same destination object
             missing = _reinit_missing(prog, E, f, site, dst, need)
             if missing:
+                # move idiom: the *source* (a local record) is re-initialised on every path instead - ownership was handed over, not shared
+                src = apath(e[1][3])
+                if src[0] == "l" and not _reinit_missing(prog, E, f, site, src, need):
+                    res.sample({"site": "%s %s: %s" % (short_loc(e[2]), f.name, show(e[1])), "verdict": "move: the local source is re-initialised on every path"})
+                    missing = set()
+            if missing:
                 names = sorted(".".join(x.split("::")[1] for x in fp) for fp in missing)
                 res.violations.append(Violation(rule, "%s|%s copied shallow: %s" % (f.name.replace("mpq_", ""), strip_prefix(rec), ",".join(names)),
                                                 f.name, short_loc(e[2]),
